@@ -15,6 +15,8 @@ import (
 	"testing/synctest"
 	"time"
 
+	"github.com/fxamacker/cbor/v2"
+
 	"verif/kit"
 
 	"github.com/mycoria/mycoria/config"
@@ -70,6 +72,9 @@ type fault struct {
 	// thenHonest: after the faulted connection has ended, the same two
 	// routers connect again without any fault.
 	thenHonest bool
+	// oldReplay: the previous session the replayed messages come from ended
+	// two hours before the current connection.
+	oldReplay bool
 }
 
 func (f fault) String() string {
@@ -81,6 +86,9 @@ func (f fault) String() string {
 		return fmt.Sprintf("%s msg%d byte%d bit%d", n, f.msg, f.pos, f.bit)
 	case fTruncate:
 		return fmt.Sprintf("%s msg%d to %d bytes", n, f.msg, f.pos)
+	}
+	if f.oldReplay {
+		n += " of a session that ended two hours and one connection ago"
 	}
 	return fmt.Sprintf("%s msg%d (%s, b-first=%v)", n, f.msg, msgName(f), f.bFirst)
 }
@@ -104,6 +112,10 @@ type outcome struct {
 	sizes          []int
 	rounds         int
 	// second (honest) connection of a thenHonest case.
+	// receiverContinued: the router that received the faulted message later
+	// wrote another handshake message that is not an error notice.
+	receiverContinued string
+	streamIntact      bool // the receiver's byte stream was not changed by the fault after all
 	second                    bool
 	reg2A, reg2B, traffic2 bool
 	doneA, doneB   bool
@@ -150,8 +162,47 @@ func run(t *testing.T, c hsConfig, f fault) (o outcome) {
 			if a.Peering().GetLink(b.Identity().IP) != nil || b.Peering().GetLink(a.Identity().IP) != nil {
 				panic("harness: previous session's links still registered")
 			}
+			if f.oldReplay {
+				// an intermediate, undisturbed connection an hour later, then another hour of silence.
+				time.Sleep(time.Hour)
+				w2, _ := session(a, b, nil, f.bFirst)
+				for _, l := range append(a.Peering().GetLinks(), b.Peering().GetLinks()...) {
+					l.Close(nil)
+				}
+				w2.EA.FeedEOF()
+				w2.EB.FeedEOF()
+				synctest.Wait()
+				time.Sleep(time.Hour)
+			}
 		}
+		// byte streams each end was fed, and would have been fed by an honest network.
+		var fedA, fedB, honestA, honestB []byte
+		faultStart, faultLen := 0, 0
+		var inner func(idx int, fromA bool, msg []byte) (toB, toA [][]byte)
 		hook := func(idx int, fromA bool, msg []byte) (toB, toA [][]byte) {
+			toB, toA = inner(idx, fromA, msg)
+			for _, x := range toB {
+				fedB = append(fedB, x...)
+			}
+			for _, x := range toA {
+				fedA = append(fedA, x...)
+			}
+			if idx == f.msg {
+				faultLen = len(msg)
+				if fromA {
+					faultStart = len(honestB)
+				} else {
+					faultStart = len(honestA)
+				}
+			}
+			if fromA {
+				honestB = append(honestB, msg...)
+			} else {
+				honestA = append(honestA, msg...)
+			}
+			return
+		}
+		inner = func(idx int, fromA bool, msg []byte) (toB, toA [][]byte) {
 			if idx < 6 {
 				o.sizes = append(o.sizes, len(msg))
 			}
@@ -193,6 +244,33 @@ func run(t *testing.T, c hsConfig, f fault) (o outcome) {
 		}
 		w, rounds := session(a, b, hook, f.bFirst)
 		o.rounds = rounds
+		// did the receiver of the faulted message go on with the handshake?
+		if f.kind != fNone && f.msg < len(w.Seen) {
+			fm := w.Seen[f.msg]
+			recvIsA := !fm.FromA
+			if f.kind == fReflect {
+				recvIsA = fm.FromA
+			}
+			// a fault that leaves the receiver's byte stream identical to the honest
+			// one (a truncated tail that the following bytes happen to restore) is no fault.
+			fed, honest := fedB, honestB
+			if recvIsA {
+				fed, honest = fedA, honestA
+			}
+			// (the receiver reassembles the faulted message from the bytes at its position in the stream.)
+			streamIntact := f.kind != fReflect && len(fed) >= faultStart+faultLen && len(honest) >= faultStart+faultLen &&
+				bytes.Equal(fed[faultStart:faultStart+faultLen], honest[faultStart:faultStart+faultLen])
+			o.streamIntact = streamIntact
+			for _, sm := range w.Seen {
+				if streamIntact || sm.Round <= fm.Round || sm.FromA != recvIsA {
+					continue
+				}
+				if !isErrorNotice(sm.Bytes) {
+					o.receiverContinued = fmt.Sprintf("message #%d (%d bytes) written in round %d", sm.Idx, len(sm.Bytes), sm.Round)
+					break
+				}
+			}
+		}
 		o.doneA, o.doneB = w.DoneA, w.DoneB
 		o.panicA, o.panicB = w.PanicA, w.PanicB
 		la := a.Peering().GetLink(b.Identity().IP)
@@ -271,10 +349,33 @@ func run(t *testing.T, c hsConfig, f fault) (o outcome) {
 	return o
 }
 
+// isErrorNotice reports whether a handshake message on the wire is the error
+// notice a router sends when it gives up (a CBOR map with a non-empty "err").
+func isErrorNotice(wire []byte) bool {
+	if len(wire) < 2+51 {
+		return false
+	}
+	raw := wire[2:]
+	sw := int(raw[48])
+	if len(raw) < 51+sw {
+		return false
+	}
+	ml := int(raw[49+sw])<<8 | int(raw[50+sw])
+	if len(raw) < 51+sw+ml {
+		return false
+	}
+	var v map[string]any
+	if err := cbor.Unmarshal(raw[51+sw:51+sw+ml], &v); err != nil {
+		return false
+	}
+	e, _ := v["err"].(string)
+	return e != ""
+}
+
 func TestC04(t *testing.T) {
 	env := kit.GetEnv()
 	rep := kit.NewReport("C04", env)
-	rep.Rule = "configurations: ordered identity pairs (incl. self-connection) x universe {same, different, both empty} x secret {same, different, only A, only B, none}; faults on each of the six handshake messages: every bit of every byte (one configuration; the others: header, first/last 16 body bytes and signature), truncation to every length (step 1 for the first 60 bytes, then every 7th), drop, duplicate, replay of the same-position message recorded from a previous complete session of the same pair, reflection to the sender (instead of / in addition to forwarding), under both dispatch orders of simultaneous messages; for a representative fault of every kind on every message: after the disturbed connection has ended the same two routers connect again undisturbed, and that connection must establish with working link keys; an active impostor with its own key pair that speaks the full protocol claiming another router's address, over connection sequences (forged key / genuine address, router known or unknown beforehand); an attacker with its own valid identity but without the universe secret that copies the victim's challenge and lifts the victim's universe proof; a three-party relay in which the attacker peers with the real P under its own identity using the victim's challenge and passes P's signed messages on to the victim; outcome on both ends after bubble quiescence; non-trivial = any fault other than none / harmless TTL-flow bits, or a configuration that must be refused; states = distinct (registered-at-A, registered-at-B, rounds) outcomes per (config, fault)"
+	rep.Rule = "configurations: ordered identity pairs (incl. self-connection) x universe {same, different, both empty} x secret {same, different, only A, only B, none}; faults on each of the six handshake messages: every bit of every byte (one configuration; the others: header, first/last 16 body bytes and signature), truncation to every length (step 1 for the first 60 bytes, then every 7th), drop, duplicate, replay of the same-position message recorded from a previous complete session of the same pair (ended just before, or two hours and one further connection ago), reflection to the sender (instead of / in addition to forwarding), under both dispatch orders of simultaneous messages; for a representative fault of every kind on every message: after the disturbed connection has ended the same two routers connect again undisturbed, and that connection must establish with working link keys; an active impostor with its own key pair that speaks the full protocol claiming another router's address, over connection sequences (forged key / genuine address, router known or unknown beforehand); an attacker with its own valid identity but without the universe secret that copies the victim's challenge and lifts the victim's universe proof; a three-party relay in which the attacker peers with the real P under its own identity using the victim's challenge and passes P's signed messages on to the victim; outcome on both ends after bubble quiescence, including whether the receiver of a faulted message wrote anything but an error notice afterwards; non-trivial = any fault other than none / harmless TTL-flow bits, or a configuration that must be refused; states = distinct (registered-at-A, registered-at-B, rounds) outcomes per (config, fault)"
 	rep.Assumptions = []string{
 		"both ends run the real handleSetup; the adversary only controls the byte stream (it holds no private key)",
 		"blocked-forever handshakes are legal outcomes ('no link'), observed through bubble quiescence, never through a timeout",
@@ -367,6 +468,10 @@ func TestC04(t *testing.T) {
 		// (2) the receiver of a faulted message must not register.
 		harmless := f.kind == fBitflip && (f.pos == 3 || f.pos == 4 || f.pos < 2)
 		mustAbortReceiver := f.kind == fBitflip && !harmless || f.kind == fTruncate || f.kind == fReplayPrev || f.kind == fReflect || f.kind == fDrop
+		if o.streamIntact && (f.kind == fTruncate || f.kind == fBitflip) {
+			mustAbortReceiver = false
+			rep.Outcome("fault/no-effect-on-the-receiver's-byte-stream")
+		}
 		if mustAbortReceiver && f.msg < 6 {
 			fromA := (f.msg%2 == 0) != f.bFirst
 			recvIsB := fromA
@@ -385,6 +490,11 @@ func TestC04(t *testing.T) {
 			}
 			if !mustAbortReceiver {
 				goto classify
+			}
+			if o.receiverContinued != "" && f.kind != fDrop {
+				rep.Violate(key("receiver-continued"), fmt.Sprintf("the router receiving the faulted %s did not abort but went on with the handshake (%s): %s; %s", msgName(f), o.receiverContinued, c, f), desc)
+				rep.Outcome("fault/receiver-continued!")
+				return
 			}
 			if (recvIsB && o.regB) || (!recvIsB && o.regA) {
 				rep.Violate(key("receiver-registered"), fmt.Sprintf("the router receiving the faulted %s registered a link (A=%v B=%v): %s; %s", msgName(f), o.regA, o.regB, c, f), desc)
@@ -416,11 +526,14 @@ func TestC04(t *testing.T) {
 			// structural faults.
 			for _, k := range []faultKind{fDrop, fDup, fReplayPrev, fReflect, fReflectAlso} {
 				for _, bf := range []bool{false, true} {
-					if !mine() {
-						continue
+					if mine() {
+						f := fault{kind: k, msg: mi, bFirst: bf}
+						judge(c, f, run(t, c, f))
 					}
-					f := fault{kind: k, msg: mi, bFirst: bf}
-					judge(c, f, run(t, c, f))
+					if k == fReplayPrev && mine() {
+						f := fault{kind: k, msg: mi, bFirst: bf, oldReplay: true}
+						judge(c, f, run(t, c, f))
+					}
 				}
 			}
 			// the same pair connects again after a disturbed connection.
